@@ -1,4 +1,5 @@
 import MiniconfVerif.Lemmas.GenTieEnums
+import MiniconfVerif.Lemmas.GenTieDeriveValue
 import MiniconfVerif.Lemmas.GenTieTuples
 import MiniconfVerif.Lemmas.GenTieValue
 import MiniconfVerif.Lemmas.WalkFrame
@@ -171,5 +172,15 @@ theorem source_result_bound_access_is_model (io : Io) (other : Tree) (ks : KeySr
    fun st hnp c h => bound_de_tie io other ks st hnp c h,
    fun st hnp c0 c1 h0 h1 => result_ser_tie io other ks st hnp c0 c1 h0 h1,
    fun st hnp c h => bound_ser_tie io other ks st hnp c h⟩
+
+open MiniconfVerif.GenTie in
+/-- **The by-key functions `#[derive(TreeSerialize, TreeDeserialize, TreeAny)]` generates** for every struct and tuple struct
+of the corpus whose fields carry no attributes (`/verif/expander` runs the macro crate's own source; `Gen/Derive.lean`
+and `Lemmas/GenTieDeriveValue.lean` are regenerated on every run, four theorems per type): as translated they do not
+panic and are `Tree.walk` at the node — the key's index selects the `i`-th retained field, **only that field's subtree is
+read or replaced** (`&mut` state threaded), errors are one level up, every other field is returned untouched.  (Fields
+with accessors / validators / denials / `defer`, and enums: every generated arm is compared with the definition by the
+run's `derive_reading_check`; their semantics is the hand-written `Tree.walk`, tied by the differential runs.) -/
+theorem source_derive_access_is_model : DeriveValueTies := deriveValueTies
 
 end MiniconfVerif.C01
